@@ -269,6 +269,17 @@ def check_case(case):
                 out.append(("C14|tree-apis-disagree", {"case": case}))
             if not value_equal(node, it.value):
                 out.append(("C14|tree-value-not-held", {"case": case, "got": repr(it.value)[:200]}))
+            # the item holds the value it was built from: changing the caller's own list afterwards must not change the item
+            if node[0] == "L":
+                members = [build_item(ch) for ch in node[1]]
+                own = list(members)
+                held = icls("L")(own)
+                before = held.encode()
+                own.append(icls("U1")(77))
+                if own[:-1]:
+                    own[0] = icls("A")("changed")
+                if held.encode() != before or before != e5.enc(node):
+                    out.append(("C14|list-item-follows-the-callers-list-after-construction", {"case": case}))
         except Exception as exc:  # noqa: BLE001
             out.append(("C14|tree-raises", {"case": case, "error": repr(exc)}))
         return {"v": out, "nt": True}
@@ -308,6 +319,13 @@ def cases(ctx):
         yield {"kind": "tree", "desc": t}
         if len(c02.nodes_preorder(gen.node_from_desc(t))) <= limit:
             yield {"kind": "decode", "desc": t, "limit": limit}
+    # an empty item of every type followed by another item in one list
+    for code in gen.LEAF_CODES:
+        if code == "J":
+            continue  # (the variables API, which the tree case compares with, has no JIS-8 inside a free list)
+        t = {"code": "L", "items": [{"code": code, "vals": []}, {"code": "U1", "vals": [5]}, {"code": code, "vals": []}]}
+        yield {"kind": "tree", "desc": t}
+        yield {"kind": "decode", "desc": t, "limit": 4}
     # from_value: every integer at +-1 around every power of two up to 2^64 and the negatives
     seen_i = set()
     for k in range(0, 66):
